@@ -73,6 +73,9 @@ func ruleC20(c *Check) {
 	c.panicInventory(fs, r)
 	c.mutateWhileIterating()
 	c.priceNonEmpty(fs)
+	// the pricing indexed while a request is built exists: requests are built only for the providers the filter admitted
+	// (providers with a stored binding, whose pricing is stored with it), never for the consumer's raw list
+	c.newBatchRules("C20.3", map[string]bool{"list-vs-amount": true})
 	// the respond handler panics if the refund of a request fee fails: fees are valid coins only because the price routine clamps to one unit
 	c.priceSkeleton("C20.3")
 	// justification of the respond function's panics
